@@ -315,12 +315,12 @@ class FromPhiInbreeding:
         nd = draw(st.integers(1, 2))
         pl = draw(st.sampled_from([2, 2, 4]))
         return dict(nd=nd, L=draw(st.integers(5, 10)), seed=draw(seed_st), ploidy=pl, nind=[draw(st.integers(1, 3)) for _ in range(nd)],
-                    Fs=[draw(st.sampled_from([0.1, 0.3, 0.7])) for _ in range(nd)])
+                    Fs=[draw(st.sampled_from([0.1, 0.3, 0.7])) for _ in range(nd)], grid=draw(st.sampled_from(['default', 'default', 'uniform', 'random'])), gseed=draw(st.integers(0, 2)))
 
     @staticmethod
     def build(a, layout):
         import dadi
-        return dict(phi=lay(_phi(a['L'], a['nd'], a['seed']), layout), xx=dadi.Numerics.default_grid(a['L']),
+        return dict(phi=lay(_phi(a['L'], a['nd'], a['seed']), layout), xx=_grid(a['L'], a.get('grid', 'default'), a.get('gseed', 0)),
                     ns=[a['ploidy'] * n for n in a['nind']], Fs=list(a['Fs']), ploidys=[a['ploidy']] * a['nd'])
 
     @staticmethod
@@ -338,12 +338,12 @@ class Integrate:
         ms = [[0.0 if i == j else draw(st.sampled_from([0.0, 0.0, 0.5, 2.0])) for j in range(nd)] for i in range(nd)]
         return dict(nd=nd, L=L, seed=draw(seed_st), nus=[draw(st.sampled_from([0.3, 1.0, 2.5])) for _ in range(nd)], ms=ms,
                     gammas=[draw(st.sampled_from([0.0, 0.0, -2.0, 1.0])) for _ in range(nd)], steps=draw(st.sampled_from([0.0, 0.5, 2.5])),
-                    mode=draw(st.sampled_from(['const', 'func'])), theta0=draw(st.sampled_from([1.0, 0.0, 3.0])))
+                    mode=draw(st.sampled_from(['const', 'func'])), theta0=draw(st.sampled_from([1.0, 0.0, 3.0])), grid=draw(st.sampled_from(['default', 'default', 'uniform', 'random'])), gseed=draw(st.integers(0, 2)))
 
     @staticmethod
     def build(a, layout):
         import dadi
-        return dict(phi=lay(_phi(a['L'], a['nd'], a['seed']), layout), xx=lay(dadi.Numerics.default_grid(a['L']), layout if layout in ('strided', 'neg') else 'C'))
+        return dict(phi=lay(_phi(a['L'], a['nd'], a['seed']), layout), xx=lay(_grid(a['L'], a.get('grid', 'default'), a.get('gseed', 0)), layout if layout in ('strided', 'neg') else 'C'))
 
     @staticmethod
     def call(a, i):
@@ -407,6 +407,40 @@ class LowPassOp:
         return np.asarray(LP.calling_error_matrix(i['cov'], a['nsub'], a['F']), float)
 
 
+@op('lowpass-model')
+class LowPassModel:
+    """the low-coverage pipeline for two or three populations with different depths and sample sizes: depth distributions from a
+    data dictionary, then the corrected model (analytic regime, no random numbers)"""
+    NAMES = ['YRI', 'CEU', 'pop_3', 'a', 'Zz9', 'deme_six']
+
+    @staticmethod
+    def strategy(draw):
+        P = draw(st.integers(2, 3))
+        nseq = [2 * draw(st.integers(1, 3)) for _ in range(P)]
+        return dict(P=P, nseq=nseq, nsub=[2 * draw(st.integers(1, n // 2)) for n in nseq], names=draw(st.permutations(LowPassModel.NAMES))[:P],
+                    depth=[draw(st.sampled_from([2.0, 5.0, 12.0])) for _ in range(P)], seed=draw(st.integers(0, 3)))
+
+    @staticmethod
+    def build(a, layout):
+        rs = np.random.RandomState(a['seed'])
+        dd = {}
+        for s in range(25):
+            dd['chr1_%d' % (s + 1)] = dict(coverage={n: rs.poisson(d, size=k // 2) for n, d, k in zip(a['names'], a['depth'], a['nseq'])})
+        return dict(dd=dd, pop_ids=list(a['names']), nseq=list(a['nseq']), nsub=list(a['nsub']))
+
+    @staticmethod
+    def call(a, i):
+        import dadi
+        from dadi.LowPass import LowPass as LP
+        rs = np.random.RandomState(a['seed'] + 11)
+        vals = rs.uniform(0.1, 5.0, size=[n + 1 for n in a['nseq']])
+        cov = LP.compute_cov_dist(i['dd'], i['pop_ids'])
+        f = LP.make_low_pass_func_GATK_multisample(lambda params, ns, pts: dadi.Spectrum(vals * params[0]), cov, i['pop_ids'], i['nseq'], i['nsub'],
+                                                   sim_threshold=1)
+        out = f([1.5], i['nsub'], [10])
+        return [np.asarray(cov[n], float) for n in i['pop_ids']], out
+
+
 @op('numerics-caches')
 class NumCaches:
     @staticmethod
@@ -433,14 +467,18 @@ class NumCaches:
                 float(Numerics.multinomln([a['x'], a['n'], a['hits']])), float(Numerics._lncomb(a['proj_from'], a['proj_to']))]
 
 
+_SHARED_MODELS = {}
+
+
 @op('godambe')
 class GodambeOp:
     @staticmethod
     def strategy(draw):
         k = draw(st.integers(1, 2))
-        return dict(k=k, n=draw(st.integers(5, 8)), mseed=draw(st.integers(0, 3)), p=[draw(st.sampled_from([0.8, 1.7, 3.0])) for _ in range(k)],
+        return dict(k=k, n=draw(st.sampled_from([5, 6])), mseed=draw(st.integers(0, 1)), p=[draw(st.sampled_from([0.8, 1.7, 3.0])) for _ in range(k)],
                     dseed=draw(st.integers(0, 3)), which=draw(st.sampled_from(['FIM', 'GIM', 'LRT'])), multinom=draw(st.booleans()), log=draw(st.booleans()),
-                    container=draw(st.sampled_from(['list', 'array', 'tuple'])))
+                    container=draw(st.sampled_from(['list', 'array', 'tuple'])), adjust=draw(st.booleans()),
+                    shared=draw(st.sampled_from([True, True, True, False])))
 
     @staticmethod
     def build(a, layout):
@@ -457,13 +495,19 @@ class GodambeOp:
     @staticmethod
     def call(a, i):
         from dadi import Godambe
-        model = _LinModel(a['mseed'], a['k'], a['n'])     # a new function object for every call, as a user's closure would be
+        if a.get('shared'):
+            # the same function object in every call of this process, as a model defined once at module level is
+            model = _SHARED_MODELS.setdefault((a['mseed'], a['k'], a['n']), _LinModel(a['mseed'], a['k'], a['n']))
+        else:
+            model = _LinModel(a['mseed'], a['k'], a['n'])     # a new function object for every call, as a user's closure would be
         p0 = i['p0']
+        # bootstrap-specific theta adjustments (only meaningful without the multinomial rescaling)
+        adj = dict(boot_theta_adjusts=[0.8, 1.0, 1.3, 0.9, 1.1]) if (a.get('adjust') and not a['multinom']) else {}
         if a['which'] == 'FIM':
             return np.asarray(Godambe.FIM_uncert(model, [10], p0, i['data'], log=a['log'], multinom=a['multinom'], eps=0.01), float)
         if a['which'] == 'GIM':
-            return np.asarray(Godambe.GIM_uncert(model, [10], i['boots'], p0, i['data'], log=a['log'], multinom=a['multinom'], eps=0.01), float)
-        return float(Godambe.LRT_adjust(model, [10], i['boots'], p0, i['data'], [0], multinom=a['multinom'], eps=0.01))
+            return np.asarray(Godambe.GIM_uncert(model, [10], i['boots'], p0, i['data'], log=a['log'], multinom=a['multinom'], eps=0.01, **adj), float)
+        return float(Godambe.LRT_adjust(model, [10], i['boots'], p0, i['data'], [0], multinom=a['multinom'], eps=0.01, **adj))
 
 
 @op('demes')
@@ -627,12 +671,13 @@ class PhiManipOp:
     def strategy(draw):
         nd = draw(st.integers(1, 4))
         return dict(nd=nd, L=draw(st.integers(5, {1: 12, 2: 9, 3: 7, 4: 5}[nd])), seed=draw(st.integers(0, 5)),
-                    which=draw(st.sampled_from(['split', 'admix-new', 'remove', 'reorder'])), f=draw(st.sampled_from([0.0, 0.25, 1.0])), idx=draw(st.integers(0, 3)))
+                    which=draw(st.sampled_from(['split', 'admix-new', 'remove', 'reorder'])), f=draw(st.sampled_from([0.0, 0.25, 1.0])), idx=draw(st.integers(0, 3)),
+                    grid=draw(st.sampled_from(['default', 'default', 'uniform', 'random'])), gseed=draw(st.integers(0, 2)))
 
     @staticmethod
     def build(a, layout):
         import dadi
-        return dict(phi=lay(_phi(a['L'], a['nd'], a['seed']), layout), xx=dadi.Numerics.default_grid(a['L']))
+        return dict(phi=lay(_phi(a['L'], a['nd'], a['seed']), layout), xx=_grid(a['L'], a.get('grid', 'default'), a.get('gseed', 0)))
 
     @staticmethod
     def call(a, i):
